@@ -511,6 +511,25 @@ Example c05_inherit_order_dependent :
                  VStruct [VStruct [VStr "pc"; VStr "pk"]]]).
 Proof. vm_compute. split; reflexivity. Qed.
 
+(* FLOAT members are never stored beyond their range: a float32 member is written only from a token that parses as a
+   float64 AND fits float32 (OverflowFloat, fix D1), on every route that goes through convertType / setMatchedPrimitiveValue
+   (`,string`, form / path / header, default=, elements of []float32 and map[string]float32) and through
+   processFieldPrimitiveWithJSONNumber; on the observed struct this is Spec.val_finite (no +Inf / -Inf / NaN) *)
+Theorem c05_float_in_range :
+  (forall s fi v, convert_set KF32 s fi = Ok v -> exists i, fi = Some i /\ fi_fits64 i = true /\ fi_fits32 i = true) /\
+  (forall s fi v, convert_set KF64 s fi = Ok v -> exists i, fi = Some i /\ fi_fits64 i = true) /\
+  (forall t o raw fi w, deref t = Prim KF32 -> json_number t o raw fi = Ok w -> fi_fits64 fi = true /\ fi_fits32 fi = true).
+Proof.
+  split; [|split].
+  - intros s fi v H. unfold convert_set in H. destruct fi as [i|]; [|discriminate].
+    destruct (fi_fits64 i) eqn:A; [|discriminate]. destruct (fi_fits32 i) eqn:B; [|discriminate]. eauto.
+  - intros s fi v H. unfold convert_set in H. destruct fi as [i|]; [|discriminate]. destruct (fi_fits64 i) eqn:A; [|discriminate]. eauto.
+  - intros t o raw fi w D H. unfold json_number in H. rewrite D in H.
+    destruct (negb (range_ok_tok o raw fi)); [discriminate|]. destruct (negb (in_options o raw)); [discriminate|].
+    destruct (fi_fits64 fi) eqn:A; [|discriminate]. destruct (fi_fits32 fi) eqn:B; [|discriminate]. auto.
+Qed.
+Print Assumptions c05_float_in_range.
+
 (* ---------------- non-vacuity *)
 Example c05_keys_example :
   to_camel_case "user_name" = "userName"%string /\ to_camel_case "UserName" = "userName"%string /\
